@@ -157,6 +157,16 @@ def graphs(ctx: Ctx):
                 i += 1
                 if ctx.mine(i):
                     yield 2, edges, order, scheme
+    # targeted 3-node family (both tiers): child allOf parent, parent (and/or child) pointing at an acyclic leaf, so that
+    # properties exist that ONLY the parent declares and the child's own part tightens one of them
+    for k1 in graphgen.EDGE_KINDS[1:7]:
+        for extra in ({}, {(0, 2): "ref"}, {(0, 2): "all_of"}, {(2, 1): "all_of"}):
+            edges = {(0, 1): "all_of", (1, 2): k1, **extra}
+            for order in itertools.permutations(range(3)):
+                for scheme in ("plain", "prefix", "propcase"):
+                    i += 1
+                    if ctx.mine(i):
+                        yield 3, edges, order, scheme
     if not ctx.quick:
         for edges in graphgen.all_graphs(3, max_edges=3):
             for order in itertools.permutations(range(3)):
